@@ -96,7 +96,7 @@ func opFsrun(a []string) string {
 	switch a[6] {
 	case peer.FaultNone:
 		f.K = -1
-	case peer.FaultClose, peer.FaultGarbage, peer.FaultTrunc, peer.FaultOther, peer.FaultCloseUL, peer.FaultSilent:
+	case peer.FaultClose, peer.FaultGarbage, peer.FaultTrunc, peer.FaultOther, peer.FaultCloseUL, peer.FaultSilent, peer.FaultBigGarbage:
 		if k < 0 {
 			panic(badArg{})
 		}
@@ -193,12 +193,27 @@ func failstopDomain(e *emitter) {
 		add(2, [5]int{2, 1, 2, 0, 3}, peer.FaultGarbage, 5, 0)
 		add(2, [5]int{2, 1, 2, 0, 3}, peer.FaultClose, 9, e.seed+2)
 		// runs that END with each procedure (nothing follows that could notice the fault later): a close at every read
-		for _, c := range [][5]int{{1, 0, 0, 0, 0}, {1, 1, 0, 0, 0}, {1, 1, 1, 0, 0}, {1, 0, 0, 0, 1}, {0, 0, 0, 0, 0}} {
-			reads, _ := fsShape(c)
+		for _, c := range [][5]int{{1, 0, 0, 0, 0}, {1, 1, 0, 0, 0}, {1, 1, 1, 0, 0}, {1, 0, 0, 0, 1}, {0, 0, 0, 0, 0}, {1, 1, 0, 1, 0}} {
+			reads, writes := fsShape(c)
 			for k := 0; k < reads; k++ {
 				add(1, c, peer.FaultClose, k, e.seed+3)
 			}
 			add(1, c, peer.FaultGarbage, reads-1, e.seed+3)
+			// the peer closes right after one of the LAST uplink messages of the run (ReleasePDU only writes)
+			for k := writes - 4; k < writes-1; k++ {
+				if k >= 0 {
+					add(1, c, peer.FaultCloseUL, k, e.seed+3)
+				}
+			}
+		}
+		// undecodable replies longer than the 2048-octet receive buffer, at every read of a one-UE conversation
+		{
+			c := [5]int{1, 1, 1, 1, 1}
+			reads, _ := fsShape(c)
+			for k := 0; k < reads; k++ {
+				add(1, c, peer.FaultBigGarbage, k, e.seed+4)
+			}
+			add(1, [5]int{1, 0, 0, 0, 0}, peer.FaultBigGarbage, 3, e.seed+4)
 		}
 		// outside the fault model: a peer that neither answers nor closes (the run is killed after 8 idle seconds)
 		add(1, [5]int{1, 1, 1, 1, 1}, peer.FaultSilent, 3, 0)
